@@ -45,6 +45,12 @@ def run(ctx):
     ctx.run_rule("K3M1", r_consts.rule_K3_M1, cfgs)
     import r_cbudget
     ctx.run_rule("PB", r_cbudget.rule_PB)
+    import r_c
+    ctx.run_rule("W1C", r_c.rule_W1C)
+    # no kernel is selected on a CPU / OS that cannot run it: the probes and the CPUID decode of the C dispatcher
+    for nm in ("D1C", "D3C", "D4C"):
+        ctx.run_c_rule(nm, getattr(r_c, "rule_" + nm), ["gnu-x86_64", "msvc-x86_64"] if ctx.tier == "quick" else list(r_c.C_FLAVOURS))
+    ctx.run_c_rule("M1C", r_c.rule_M1C, ["gnu-x86_64", "msvc-x86_64"] if ctx.tier == "quick" else list(r_c.C_FLAVOURS))
     import r_round
     ctx.run_rule("R1cv", r_round.rule_R1_cvec)
     ctx.run_rule("XNc", r_round.rule_XN_c)
